@@ -54,6 +54,15 @@ def cases(seed, tier):
             for sk in range(4 if tier == "quick" else 6):
                 out.append({"group": "partition", "partition": p, "skeleton": sk,
                             "seed": sub_seed(seed, "c20p", n, sk, *p), "nops": 8})
+    # scripted histories that exercise both modes of both interfaces on one Packer, in both orders
+    scripts = [["get_flat:u", "get_flat:a", "c_flat:a", "c_flat:u", "c_flat:a", "c_list:u", "c_list:a", "c_flat:u"],
+               ["get_flat:a", "get_flat:u", "c_flat:u", "c_flat:a", "c_list:a", "c_flat:u", "c_list:u", "c_flat:a"],
+               ["get_list:u", "c_list:u", "get_list:a", "c_list:a", "c_list:u", "get_flat:a", "c_flat:a", "get_flat:u", "c_flat:u", "c_flat:a"],
+               ["get_flat:u", "c_flat:u", "bad_numel:u", "c_flat:u", "get_flat:a", "bad_len:a", "c_flat:a", "bad_shape:u", "c_list:u"]]
+    nscr = 400 if tier == "quick" else 4000
+    for i in range(nscr):
+        out.append({"group": "scripted", "seed": sub_seed(seed, "c20s", i), "maxc": 2 + i % 6, "maxslots": 3 + i % 6,
+                    "script": scripts[i % len(scripts)], "nops": len(scripts[i % len(scripts)])})
     # degenerate structures
     for k, spec in enumerate(["tensor", "int", "emptylist", "emptydict", "tupleonly", "obj_empty"]):
         out.append({"group": "degenerate", "spec": spec, "seed": sub_seed(seed, "c20d", k), "nops": 6})
@@ -270,7 +279,7 @@ def run_case(desc):
     rng = random.Random(desc["seed"])
     dt = torch.float64
     # ---------------- build the structure
-    if desc["group"] == "random":
+    if desc["group"] in ("random", "scripted"):
         sdesc, labshape = gen_random_desc(rng, desc["maxc"], desc["maxslots"])
     elif desc["group"] == "partition":
         p = desc["partition"]
@@ -348,8 +357,12 @@ def run_case(desc):
 
     nops = desc["nops"]
     for step in range(nops):
-        op = rng.choice(["get_list", "get_flat", "c_list", "c_flat", "c_list", "c_flat", "bad_len", "bad_shape", "bad_numel"])
-        unique = rng.random() < 0.5
+        if desc.get("script"):
+            op, u_ = desc["script"][step].split(":")
+            unique = u_ == "u"
+        else:
+            op = rng.choice(["get_list", "get_flat", "c_list", "c_flat", "c_list", "c_flat", "bad_len", "bad_shape", "bad_numel"])
+            unique = rng.random() < 0.5
         ops_done.append("%s(%s)" % (op, "u" if unique else "a"))
         nexp = len(uniq_labels) if unique else nslots
         try:
